@@ -110,7 +110,14 @@ def bed_rest(k):
     return "\t".join(cols[: 1 + k % 5])
 
 
-def write_inputs(d, kind, items, tag):
+REAL_NAMES = ["chr1", "chr10", "chr10_random", "chr2", "chrUn_KI270302v1"]   # shared prefixes, different lengths; byte-wise sorted
+
+
+def cname(i, scheme=0):
+    return REAL_NAMES[i - 1] if scheme else chrom_name(i)
+
+
+def write_inputs(d, kind, items, tag, scheme=0):
     """chromosome sizes differ: the first chromosome is exactly as long as its data (so later chromosomes have
     records beyond the first one's length), chromosome c has c spare bases"""
     nch = max(it[0] for it in items)
@@ -119,18 +126,18 @@ def write_inputs(d, kind, items, tag):
     sizes = os.path.join(d, "chrom_%s.sizes" % tag)
     with open(sizes, "w") as f:
         for c in range(1, nch + 1):
-            f.write("%s\t%d\n" % (chrom_name(c), szs[c]))
+            f.write("%s\t%d\n" % (cname(c, scheme), szs[c]))
     path = os.path.join(d, "in_%s.%s" % (tag, "bedGraph" if kind == "bw" else "bed"))
     with open(path, "w") as f:
         for it in items:
             if kind == "bw":
-                f.write("%s\t%d\t%d\t%s\n" % (chrom_name(it[0]), it[1], it[2], VALS[it[3]]))
+                f.write("%s\t%d\t%d\t%s\n" % (cname(it[0], scheme), it[1], it[2], VALS[it[3]]))
             else:
-                f.write("%s\t%d\t%d\t%s\n" % (chrom_name(it[0]), it[1], it[2], bed_rest(it[3])))
+                f.write("%s\t%d\t%d\t%s\n" % (cname(it[0], scheme), it[1], it[2], bed_rest(it[3])))
     return path, sizes, size
 
 
-def parse_back(kind, path, rest_ids):
+def parse_back(kind, path, rest_ids, scheme=0):
     """text -> [[c, s, e, x]]; x = value token (f32-equal to a table value) / entry id (identical extra columns)"""
     out = []
     try:
@@ -141,7 +148,7 @@ def parse_back(kind, path, rest_ids):
                     continue
                 p = line.split("\t", 3)
                 from pyverif.image import chrom_idx
-                c = chrom_idx(p[0])
+                c = (REAL_NAMES.index(p[0]) + 1 if p[0] in REAL_NAMES else 0) if scheme else chrom_idx(p[0])
                 s, e = int(p[1]), int(p[2])
                 if kind == "bw":
                     x = VBITS.get(f32bits(p[3]), -1)
@@ -158,7 +165,8 @@ def c16_case(tdir, d, k, b):
     kind = cfg["kind"]
     items = text_items(kind, cfg["text"])
     tag = "%d" % k
-    inp, sizes, size = write_inputs(d, kind, items, tag)
+    scheme = k % 2          # every other case: chromosome names that share prefixes and differ in length
+    inp, sizes, size = write_inputs(d, kind, items, tag, scheme)
     big = os.path.join(d, "out_%s.%s" % (tag, "bw" if kind == "bw" else "bb"))
     back = os.path.join(d, "back_%s.txt" % tag)
     ucsc = cfg["style"] == "ucsc"
@@ -190,7 +198,7 @@ def c16_case(tdir, d, k, b):
     if max(it[0] for it in items) < 2:
         rc_ = 1
     if cfg["restrict"] in ("chrom", "range", "start", "end"):
-        a2.append(("-chrom=%s" if ucsc else "--chrom=%s") % chrom_name(rc_))
+        a2.append(("-chrom=%s" if ucsc else "--chrom=%s") % cname(rc_, scheme))
     if cfg["restrict"] in ("range", "start"):
         a2.append(("-start=%d" if ucsc else "--start=%d") % rs_)
     if cfg["restrict"] in ("range", "end"):
@@ -205,7 +213,7 @@ def c16_case(tdir, d, k, b):
                  "passes": 1 if "path.pass.single" in ev else (2 if {"path.pass.first", "path.pass.zoom"} <= ev else 0),
                  "back": sorted(x[len("path.back."):] for x in ev if x.startswith("path.back."))}
     rest_ids = {bed_rest(it[3]): it[3] for it in items} if kind == "bb" else {}
-    recs = parse_back(kind, back, rest_ids) if rc2 == 0 else None
+    recs = parse_back(kind, back, rest_ids, scheme) if rc2 == 0 else None
     obs = {"rc1": rc1, "rc2": rc2, "parsed": 1 if recs is not None else 0, "back": recs or [], "back3": [[r[1], r[2], r[3]] for r in (recs or [])],
            "err": (err1 + err2)[-300:], "seen": seen_path}
     for p in (inp, sizes, big, back):
